@@ -398,7 +398,7 @@ V({
 # -------------------------------------------------------------------------- V11
 V({
     "id": "V11",
-    "title": "builtin_dispatch: add_sized_program_clauses, add_copy_program_clauses",
+    "title": "builtin_dispatch: add_sized_program_clauses, add_copy_program_clauses, add_clone_program_clauses, add_tuple_program_clauses",
     "template": "v11_builtin.rs",
     "assumptions": [
         "V11: callee contracts (not verified): push_adt_sized_conditions pushes the last-field condition, push_tuple_sized_conditions / push_tuple_copy_conditions the tuple conditions, needs_impl_for_tys one clause requiring the trait for exactly the given types, ClauseBuilder::push_fact the unconditional clause (ghost log)",
@@ -443,6 +443,7 @@ V({
         "V13: callee contracts not verified: aggregate_name_and_substs (iterator+closure: false only if names equal and arguments pairwise instances), aggregate_consts, aggregate_lifetimes (always true)",
         "V13: types are finite trees; canonical forms contain no free inference variables (the code panics on one): Ty::kind's contract",
         "V13: `ty_instance` is the term-algebra definition of 'instance of' with argument lists / constants abstract",
+        "V13: the current guidance is LINEAR (every bound variable occurs once), which is what makes '(_, BoundVar) => cannot invalidate' right; linearity is established by the anti-unifier (merge_into_guidance: a fresh variable per position), which is NOT verified (seeded change s-C17 breaks exactly this and is missed)",
     ],
     "trusted": ["chalk-engine MayInvalidate::aggregate_name_and_substs"],
 })
